@@ -258,6 +258,7 @@ func zv4PartA(t *testing.T, run *core.Run, rng *core.Rand) {
 		var order []string
 		delayed := map[string]bool{} // keys that may be under a lock-delay
 		ttlEndedHeld, otherEndedHeld := 0, 0
+		var lastView *zv4Tables
 		flapped, forcePause := false, false
 		lastCreated := ""
 		pickSess := func() string {
@@ -464,17 +465,22 @@ func zv4PartA(t *testing.T, run *core.Run, rng *core.Rand) {
 			for _, f := range zv4Invariants(after) {
 				report(f, fmt.Sprintf("after step %d (%s)", step, desc))
 			}
-			fs, ended := zv4Ended(before, after, !isTxn, touched)
+			// session ends are taken from the window since the view after the PREVIOUS step (a TTL expiry may
+			// fall between two steps, where neither this step's before-view nor its after-view would show it)
+			if lastView == nil {
+				lastView = before
+			}
+			fs, ended := zv4Ended(lastView, after, !isTxn, touched)
 			for _, f := range fs {
 				report(f, fmt.Sprintf("after step %d (%s)", step, desc))
 			}
 			for _, id := range ended {
 				si := sess[id]
 				held := false
-				for _, e := range before.kvs {
+				for _, e := range lastView.kvs {
 					if e.Session == id {
 						held = true
-						if bs := before.sessions[id]; bs != nil && bs.LockDelay > 0 {
+						if bs := lastView.sessions[id]; bs != nil && bs.LockDelay > 0 {
 							delayed[e.Key] = true
 						}
 					}
@@ -505,6 +511,7 @@ func zv4PartA(t *testing.T, run *core.Run, rng *core.Rand) {
 					}
 				}
 			}
+			lastView = after
 			// ---- lock / unlock result vs the holder before the call. The only writer besides this client is the
 			// TTL timer, which can only END sessions: rules are skipped when a session involved ended meanwhile.
 			if (isLock || isUnlock) && haveRes {
